@@ -15,9 +15,12 @@ var c04Mains = []struct{ name string }{{"scalar"}, {"list"}, {"reduce"}}
 var c04Adds = []struct{ name, sym string }{{"vanilla", ""}, {"lonely", "&"}, {"thoughtful", "~"}, {"strict", "="}}
 var c04MainSym = map[string]string{"scalar": ".", "list": "@", "reduce": "$"}
 
-const c04Prelude = `E := {m: m{|a| return nil if self.b == 'n; raise Err.new("boom") if self.b == 'r; self.id * 10 + a}}
-Acc := {t: 0, m: m{|e, a| return nil if e.b == 'n; raise Err.new("boom") if e.b == 'r; self.bear({t: self.t * 10 + e.id + a})}}
+const c04Prelude = `E := {m: m{|a| return nil if self.b == 'n; raise self.k.new("boom") if self.b == 'r; self.id * 10 + a}}
+Acc := {t: 0, m: m{|e, a| return nil if e.b == 'n; raise e.k.new("boom") if e.b == 'r; self.bear({t: self.t * 10 + e.id + a})}}
 `
+
+// behaviours that raise, by error kind (StopIterErr is the iterator protocol's own signal)
+var c04RaiseKinds = map[string]string{"r": "Err", "s": "StopIterErr", "t": "TypeErr", "z": "ValueErr"}
 
 func c04Canon(o object.PanObject) string {
 	switch v := o.(type) {
@@ -64,7 +67,7 @@ func genC04(c *Ctx) {
 		if n == 0 {
 			return
 		}
-		for _, b := range []string{"v", "n", "r", "N"} {
+		for _, b := range []string{"v", "n", "r", "N", "s"} {
 			t := append(append([]string{}, prefix...), b)
 			tables = append(tables, t)
 			gen(t, n-1)
@@ -80,7 +83,11 @@ func genC04(c *Ctx) {
 				elemSrc = append(elemSrc, "nil")
 				elemTok = append(elemTok, "N")
 			} else {
-				elemSrc = append(elemSrc, fmt.Sprintf("E.bear({id: %d, b: '%s})", i+1, b))
+				if kind, ok := c04RaiseKinds[b]; ok {
+					elemSrc = append(elemSrc, fmt.Sprintf("E.bear({id: %d, b: 'r, k: %s})", i+1, kind))
+				} else {
+					elemSrc = append(elemSrc, fmt.Sprintf("E.bear({id: %d, b: '%s})", i+1, b))
+				}
 				elemTok = append(elemTok, fmt.Sprintf("%d%s", i+1, b))
 			}
 		}
@@ -191,9 +198,9 @@ func genC04(c *Ctx) {
 		ln := 4 + c.Rng.Intn(5)
 		tbl := []string{}
 		for j := 0; j < ln; j++ {
-			opts := []string{"v", "v", "v", "n", "r", "N"}
+			opts := []string{"v", "v", "v", "n", "r", "N", "s", "t", "z"}
 			if m.name == "reduce" {
-				opts = []string{"v", "v", "v", "n", "n", "r"}
+				opts = []string{"v", "v", "v", "n", "n", "r", "s", "t", "z"}
 			}
 			tbl = append(tbl, c.Rng.Pick(opts))
 		}
